@@ -86,6 +86,6 @@ def masked_bins(name, src, cfgs, extra_flags=(), extra_objs=()):
     out = []
     for c in cfgs:
         adp = adapter_obj("adp_masked.c", c, dirs[c.name])
-        san = ["-fsanitize=address,undefined"] if "asan" in c.instr else ["--coverage"] if c.instr == "gcov" else []
+        san = ["-fsanitize=address,undefined"] if "asan" in c.instr else ["--coverage"] if c.instr == "gcov" else ["-no-pie"] if c.instr == "nopic" else []
         out.append((c.name, link_bin(name, [obj, tape, adp] + list(extra_objs), dirs[c.name], extra=san)))
     return out
